@@ -29,6 +29,14 @@ type c26Case struct {
 	Count    uint32   `json:"count"`    // READDIR count / READDIRPLUS maxcount
 	DirCount uint32   `json:"dircount"` // READDIRPLUS only
 	Cache    cacheCfg `json:"cache"`
+	// Tight, when non-empty, replaces Count call by call: call i asks for exactly the size of the header, the
+	// next K not yet listed entries and the trailer, plus Delta bytes (the boundary the size limit is about).
+	Tight []c26Tight `json:"tight,omitempty"`
+}
+
+type c26Tight struct {
+	K     int `json:"k"`
+	Delta int `json:"delta"`
 }
 
 var c26Counts = []uint32{0, 1, 100, 103, 104, 127, 128, 129, 131, 132, 200, 300, 332, 400, 512, 1024, 4096, 8192, 65536, 1<<32 - 1}
@@ -40,6 +48,15 @@ func genC26(t *rapid.T) c26Case {
 		c.NameLens = append(c.NameLens, pick(t, "len", 1, 2, 3, 4, 5, 200, 255, 255, 255, rapid.IntRange(1, 255).Draw(t, "l")))
 	}
 	c.Cache = cacheCfg{AttrTTLns: pick(t, "ttl", int64(1), int64(3600e9)), AttrSize: 10000, DirCache: rapid.Bool().Draw(t, "dc")}
+	switch pick(t, "countmode", "fixed", "fixed", "random", "tight", "tight", "tight") {
+	case "random":
+		c.Count = uint32(rapid.IntRange(0, 6000).Draw(t, "rcount"))
+	case "tight":
+		nt := rapid.IntRange(1, 4).Draw(t, "ntight")
+		for i := 0; i < nt; i++ {
+			c.Tight = append(c.Tight, c26Tight{K: pick(t, "k", 1, 2, 2, 3, 3, 4, 7, rapid.IntRange(1, 20).Draw(t, "kk")), Delta: rapid.IntRange(-5, 5).Draw(t, "delta")})
+		}
+	}
 	return c
 }
 
@@ -116,6 +133,26 @@ func runC26(tb stat.TB, c c26Case) {
 		complete := false
 		for call := 0; call <= len(names)+2; call++ {
 			var args []byte
+			if len(c.Tight) > 0 {
+				// the boundary count for this call (the resok header is 96 bytes: post_op_attr with attributes + cookieverf)
+				tg := c.Tight[call%len(c.Tight)]
+				want := 4 + 84 + 8 + 8
+				for j, n := range remaining() {
+					if j >= tg.K {
+						break
+					}
+					sz := 4 + 8 + 4 + pad4(len(n)) + 8
+					if c.Plus {
+						sz += 4 + 84 + 4 + 4 + 8
+					}
+					want += sz
+				}
+				want += tg.Delta
+				if want < 0 {
+					want = 0
+				}
+				c.Count = uint32(want)
+			}
 			if c.Plus {
 				args = nfsx.ArgsReaddirplus(dr.Fh, cookie, verf, c.DirCount, c.Count)
 			} else {
@@ -240,6 +277,9 @@ func runC26(tb stat.TB, c c26Case) {
 	}
 	if pages >= 2 {
 		ls = append(ls, "multi_page")
+	}
+	if len(c.Tight) > 0 {
+		ls = append(ls, "tight_counts")
 	}
 	stat.Case(c, pages >= 2 || tooSmallSeen, ls...)
 }
